@@ -23,7 +23,7 @@ one canonical form of constructs that maintainers routinely rewrite into each ot
   S7  T i = a; while (c(i)) { body; ++i; } (no continue, i dead afterwards) -> for (T i = a; c(i); ++i) body
   S4  a void function body / a loop body that ends with `if (a && b) { X }` -> `if (!a) return / continue; if (!b) ...; X` (guard-clause form)
   S8  if (a > b) a = b; -> a = min(a, b); if (a < b) a = b; -> a = max(a, b)   (integers)
-  E11 x * 2^K -> x << K, unsigned x / 2^K -> x >> K ;  E12 2 * i -> i * 2 ;  E15 const integral local initialised with a literal / named constant reads as that value ;  E14 !(a && b) -> !a || !b ;  E13 X.empty() -> X.size() == 0 (std containers) ;  S13b if (c) f |= v; -> f |= c ? v : 0 ;  S16 T x; x = e; -> T x = e ;  S15 pointer cursor over [B, B+N) -> index loop over B ;  S10 if (c) x = a; else x = b; -> x = c ? a : b ;  S13 if (c) b = true; -> b |= c ; if (c) b = false; -> b &= !c  (bool b)
+  E11 x * 2^K -> x << K, unsigned x / 2^K -> x >> K, unsigned x % 2^K -> x & (2^K - 1) ;  E12 2 * i -> i * 2 ;  E15 const integral local initialised with a literal / named constant reads as that value ;  E14 !(a && b) -> !a || !b ;  E13 X.empty() -> X.size() == 0 (std containers) ;  S13b if (c) f |= v; -> f |= c ? v : 0 ;  S16 T x; x = e; -> T x = e ;  S15 pointer cursor over [B, B+N) -> index loop over B ;  S10 if (c) x = a; else x = b; -> x = c ? a : b ;  S13 if (c) b = true; -> b |= c ; if (c) b = false; -> b &= !c  (bool b)
   S14 `T x = a; if (c) x = b;` -> `T x = c ? b : a;`   (a a plain read)
   S12 `if (ok) return; throw X;` at the end of a void function -> `if (!ok) throw X;`
   S5  `while (c) body` and `for (; c; ) body` are both exported as For nodes with empty init / increment
@@ -229,6 +229,13 @@ def norm_expr(e):
             return e["l"]
         if lv == 1 and op == "*" and (e.get("t") == (e["r"].get("t") if isinstance(e["r"], dict) else None)):
             return e["r"]
+    if k == "Bin" and e.get("op") == "%" and not _is_float(e) and _unsigned(_strip(e.get("l"))) and not _is_float(_strip(e.get("l"))):
+        rv = _lit(e["r"])
+        if _lit(e["l"]) is None and isinstance(rv, int) and not isinstance(rv, bool) and rv >= 2 and (rv & (rv - 1)) == 0 and rv < (1 << 62):
+            # unsigned x % 2^K -> x & (2^K - 1)
+            e = dict(e)
+            e["op"] = "&"
+            e["r"] = dict(_strip(e["r"]), k="Int", v=rv - 1, lit=str(rv - 1))
     if k == "Bin" and e.get("op") == "/" and not _is_float(e) and _unsigned(_strip(e.get("l"))) and not _is_float(_strip(e.get("l"))):
         rv = _lit(e["r"])
         if _lit(e["l"]) is None and isinstance(rv, int) and not isinstance(rv, bool) and rv >= 2 and (rv & (rv - 1)) == 0 and rv < (1 << 62):
